@@ -1,9 +1,10 @@
 (** * C14 — proofs about [isQuadTree] / [validate] of Tms/Model.v *)
-From Coq Require Import ZArith QArith Qround String Ascii List Bool Lia Permutation.
+From Coq Require Import ZArith QArith Qround String Ascii List Bool Lia Permutation Sorted.
 From Texel Require Import Tms.Json Tms.Model.
 From Texel.Gen Require Import ConstsGen TmsData.
 Import ListNotations.
 Open Scope Z_scope.
+Open Scope list_scope.
 
 (** ** The conditions, as propositions *)
 Definition single_ok (k : Z) (m : tileMatrix) : Prop :=
@@ -169,7 +170,7 @@ Proof.
     + destruct (check_pair pk pm k m) eqn:EP.
       * apply IH; [exact Hr|exact Hm].
       * discriminate.
-      * exfalso. eapply check_pair_no_panic; eauto.
+      * exfalso. exact (check_pair_no_panic pk pm k m HP Hm EP).
     + apply IH; [exact Hr|exact Hm].
 Qed.
 
@@ -364,7 +365,8 @@ Qed.
 
 (** an accepted sorted list splits at any of its members; the other keys differ *)
 Lemma accepted_split : forall l k m, chain_ok None l -> In (k, m) l ->
-  exists l1 l2, l = l1 ++ (k, m) :: l2 /    (forall k' m', In (k', m') l1 -> k' < k) /\ (forall k' m', In (k', m') l2 -> k < k').
+  exists l1 l2 : list (Z * tileMatrix), l = (l1 ++ (k, m) :: l2)%list /\
+    (forall k' m', In (k', m') l1 -> k' < k) /\ (forall k' m', In (k', m') l2 -> k < k').
 Proof.
   intros l k m H HI. destruct (in_split _ _ HI) as [l1 [l2 E]]. exists l1, l2. subst l. split; [reflexivity|]. split.
   - intros k' m' HI'. eapply chain_ok_prefix_keys; eauto.
@@ -402,7 +404,9 @@ Proof. intros t ids H. unfold validate in H. destruct (isQuadTree t); auto; disc
 
 (** the generic step: an accepted set whose matrix k is replaced by m' is judged at k *)
 Lemma quad_update_at : forall t k m f, isQuadTree t = Accept -> In (k, m) (t_matrices t) ->
-  exists l1 l2, sorted_matrices t = l1 ++ (k, m) :: l2 /    chain_ok None (l1 ++ (k, m) :: l2) /    isQuadTree (update_tm t k f) = iqt_loop (lastp None l1) ((k, f m) :: l2).
+  exists l1 l2 : list (Z * tileMatrix), sorted_matrices t = (l1 ++ (k, m) :: l2)%list /\
+    chain_ok None (l1 ++ (k, m) :: l2)%list /\
+    isQuadTree (update_tm t k f) = iqt_loop (lastp None l1) ((k, f m) :: l2).
 Proof.
   intros t k m f HA HI. unfold isQuadTree in HA. apply iqt_loop_accept in HA.
   apply in_sorted_iff in HI.
@@ -457,7 +461,7 @@ Proof.
   destruct (check_pair pk pm k m) eqn:E.
   - apply check_pair_accept in E. contradiction.
   - eexists; reflexivity.
-  - exfalso. eapply check_pair_no_panic; eauto.
+  - exfalso. exact (check_pair_no_panic pk pm k m O1 O2 E).
 Qed.
 
 Lemma pair_origin : forall pk pm k m, pair_ok pk pm k m -> tm_origin pm <> None /\ tm_origin m <> None.
@@ -492,5 +496,201 @@ Proof.
       destruct (check_pair k (f m) nk nm) eqn:EP.
       * apply check_pair_accept in EP. exfalso. eapply HN; eauto.
       * eexists; reflexivity.
-      * exfalso. eapply check_pair_no_panic; eauto. apply pair_origin in P1. tauto.
+      * exfalso. apply pair_origin in P1. destruct P1 as [_ ON].
+        exact (check_pair_no_panic k (f m) nk nm HO ON EP).
+Qed.
+
+(** ** The perturbation theorem *)
+Lemma lastp_in : forall l e, lastp None l = Some e -> In e l.
+Proof.
+  intros l e H. unfold lastp in H. destruct (rev l) as [|x r] eqn:ER; [discriminate|].
+  inversion H; subst. apply in_rev. rewrite ER. left; reflexivity.
+Qed.
+
+Lemma lastp_none : forall l, lastp None l = None -> l = [].
+Proof.
+  intros l H. unfold lastp in H. destruct (rev l) eqn:ER; [|discriminate].
+  apply (f_equal (@rev _)) in ER. rewrite rev_involutive in ER. exact ER.
+Qed.
+
+Lemma chain_in_unique : forall l k a b, chain_ok None l -> In (k, a) l -> In (k, b) l -> a = b.
+Proof.
+  intros l k a b H Ha Hb. destruct (accepted_split _ _ _ H Ha) as [l1 [l2 [E [H1 H2]]]]. subst l.
+  apply in_app_or in Hb. destruct Hb as [Hb|[Hb|Hb]].
+  - specialize (H1 _ _ Hb). lia.
+  - inversion Hb; reflexivity.
+  - specialize (H2 _ _ Hb). lia.
+Qed.
+
+Lemma chain_ok_weaken : forall l p, chain_ok (Some p) l -> chain_ok None l.
+Proof. intros [|[k m] r] p H; simpl in *; tauto. Qed.
+
+Lemma find_tm_filter : forall k l, find_tm k (filter (keep k) l) = None.
+Proof.
+  intros k l. induction l as [|[k0 m0] r IH]; simpl; auto.
+  unfold keep at 1. simpl. destruct (Z.eqb_spec k0 k); simpl; auto.
+  destruct (Z.eqb_spec k k0); [subst; contradiction|auto].
+Qed.
+
+Lemma single_ok_ext : forall k m m',
+  tm_matrixHeight m' = tm_matrixHeight m -> tm_matrixWidth m' = tm_matrixWidth m ->
+  tm_tileHeight m' = tm_tileHeight m -> tm_tileWidth m' = tm_tileWidth m ->
+  tm_id m' = tm_id m -> tm_vmw m' = tm_vmw m -> single_ok k m -> single_ok k m'.
+Proof.
+  intros k m m' H1 H2 H3 H4 H5 H6 [A [B [C D]]]. unfold single_ok, vmw_nonempty in *.
+  rewrite H1, H2, H3, H4, H5, H6. auto.
+Qed.
+
+(** the previous / next matrix of an accepted set, by key *)
+Lemma prev_is_last : forall l1 k m l2 pm,
+  chain_ok None (l1 ++ (k, m) :: l2) -> In (k - 1, pm) (l1 ++ (k, m) :: l2) -> lastp None l1 = Some (k - 1, pm).
+Proof.
+  intros l1 k m l2 pm HC HI.
+  assert (Hl := chain_ok_app _ _ _ HC). simpl in Hl. destruct Hl as [_ [P _]].
+  destruct (lastp None l1) as [[pk pm0]|] eqn:EL.
+  - destruct P as [E _]. assert (pk = k - 1) by lia. subst pk.
+    apply lastp_in in EL. f_equal. f_equal.
+    eapply chain_in_unique; [exact HC| |exact HI]. apply in_or_app; left; exact EL.
+  - apply lastp_none in EL. subst l1. simpl in *. destruct HC as [_ [_ C]]. destruct HI as [HI|HI].
+    + inversion HI; lia.
+    + apply chain_keys in C. eapply keys_from_in in C; eauto. lia.
+Qed.
+
+Lemma next_is_head : forall l1 k m l2 nm,
+  chain_ok None (l1 ++ (k, m) :: l2) -> In (k + 1, nm) (l1 ++ (k, m) :: l2) -> exists r2, l2 = (k + 1, nm) :: r2.
+Proof.
+  intros l1 k m l2 nm HC HI.
+  assert (Hl := chain_ok_app _ _ _ HC). simpl in Hl. destruct Hl as [_ [_ C]].
+  destruct l2 as [|[nk nm0] r2].
+  - exfalso. apply in_app_or in HI. destruct HI as [HI|[HI|[]]].
+    + eapply chain_ok_prefix_keys in HI; eauto. lia.
+    + inversion HI; lia.
+  - simpl in C. destruct C as [_ [[E _] _]]. subst nk. exists r2. f_equal. f_equal.
+    eapply chain_in_unique; [exact HC| |exact HI]. apply in_or_app; right; right; left; reflexivity.
+Qed.
+
+Theorem perturbation_rejected_lemma : forall t ids k m,
+  validate t ids = Accept -> In (k, m) (t_matrices t) ->
+  (forall v, v <> tm_matrixWidth m -> rejected (validate (update_tm t k (with_matrixWidth v)) ids)) /\
+  (forall v, v <> tm_matrixHeight m -> rejected (validate (update_tm t k (with_matrixHeight v)) ids)) /\
+  (forall v, v <> tm_tileWidth m -> rejected (validate (update_tm t k (with_tileWidth v)) ids)) /\
+  (forall v, v <> tm_tileHeight m -> rejected (validate (update_tm t k (with_tileHeight v)) ids)) /\
+  (forall o o0, (2 <= length (t_matrices t))%nat -> tm_origin m = Some o0 -> point_feqb o o0 = false ->
+     rejected (validate (update_tm t k (with_origin o)) ids)) /\
+  (forall c, (2 <= length (t_matrices t))%nat -> c <> tm_corner m ->
+     rejected (validate (update_tm t k (with_corner c)) ids)) /\
+  (forall d, (exists pm, In (k - 1, pm) (t_matrices t) /\ ratio_ok (tm_cellSize pm) d = false) \/
+             (exists nm, In (k + 1, nm) (t_matrices t) /\ ratio_ok d (tm_cellSize nm) = false) ->
+     rejected (validate (update_tm t k (with_cellSize d)) ids)) /\
+  (forall nm, In (k + 1, nm) (t_matrices t) -> (k = 0 \/ exists pm, In (k - 1, pm) (t_matrices t)) ->
+     rejected (validate (delete_tm t k) ids)) /\
+  (forall v vs, rejected (validate (update_tm t k (with_vmw (v :: vs))) ids)).
+Proof.
+  intros t ids k m HV HI. assert (HA := validate_accept_quad _ _ HV).
+  assert (HC0 : chain_ok None (sorted_matrices t)) by (apply iqt_loop_accept; exact HA).
+  assert (HS : single_ok k m) by (eapply chain_ok_all_single; [exact HC0|apply in_sorted_iff; exact HI]).
+  destruct HS as [S1 [S2 [S3 S4]]].
+  repeat split.
+  - intros v Hv. apply validate_of_rejected_quad. eapply reject_single; eauto.
+    intros [A _]. simpl in A. congruence.
+  - intros v Hv. apply validate_of_rejected_quad. eapply reject_single; eauto.
+    intros [A _]. simpl in A. congruence.
+  - intros v Hv. apply validate_of_rejected_quad. eapply reject_single; eauto.
+    intros [_ [A _]]. simpl in A. congruence.
+  - intros v Hv. apply validate_of_rejected_quad. eapply reject_single; eauto.
+    intros [_ [A _]]. simpl in A. congruence.
+  - intros o o0 HL HO HF. apply validate_of_rejected_quad. eapply reject_pair; eauto.
+    + repeat split; auto.
+    + simpl. discriminate.
+    + intros pk pm [_ [[a [pa [A1 [A2 A3]]]] _]] [_ [[b [pb [B1 [B2 B3]]]] _]]. simpl in B1.
+      rewrite HO in A1. inversion A1; inversion B1; subst. rewrite A2 in B2. inversion B2; subst.
+      rewrite point_feqb_sym in A3. assert (point_feqb b a = true) by (eapply point_feqb_trans; eauto). congruence.
+    + intros nk nm [_ [[a [pa [A1 [A2 A3]]]] _]] [_ [[b [pb [B1 [B2 B3]]]] _]]. simpl in B2.
+      rewrite HO in A2. inversion A2; inversion B2; subst. rewrite A1 in B1. inversion B1; subst.
+      rewrite point_feqb_sym in B3. assert (point_feqb pb pa = true) by (eapply point_feqb_trans; eauto). congruence.
+  - intros c HL Hc. apply validate_of_rejected_quad. eapply reject_pair; eauto.
+    + repeat split; auto.
+    + simpl. intro E. assert (O := chain_ok_all_single _ _ HC0). clear O.
+      (* the origin of m is present whenever there are two matrices: it takes part in a pair check *)
+      destruct (quad_update_at t k m (with_corner c) HA HI) as [l1 [l2 [ES [HCs _]]]].
+      assert (Hl := chain_ok_app _ _ _ HCs). simpl in Hl. destruct Hl as [_ [P C]].
+      destruct (lastp None l1) as [[pk pm]|] eqn:EL.
+      * apply pair_origin in P. tauto.
+      * apply lastp_none in EL. subst l1. destruct l2 as [|[nk nm] r2].
+        -- assert (length (sorted_matrices t) = length (t_matrices t)) by (symmetry; apply Permutation_length, sorted_perm).
+           rewrite ES in H. simpl in H. lia.
+        -- simpl in C. destruct C as [_ [P1 _]]. apply pair_origin in P1. tauto.
+    + intros pk pm [_ [_ [A _]]] [_ [_ [B _]]]. simpl in B. congruence.
+    + intros nk nm [_ [_ [A _]]] [_ [_ [B _]]]. simpl in B. congruence.
+  - intros d Hd. apply validate_of_rejected_quad.
+    destruct (quad_update_at t k m (with_cellSize d) HA HI) as [l1 [l2 [ES [HCs E]]]]. rewrite E.
+    assert (Hl := chain_ok_app _ _ _ HCs). simpl in Hl. destruct Hl as [_ [P C]].
+    assert (SS : check_single k (with_cellSize d m) = None) by (apply check_single_none; repeat split; auto).
+    destruct Hd as [[pm [Hp Hr]]|[nm [Hn Hr]]].
+    + apply in_sorted_iff in Hp. rewrite ES in Hp.
+      rewrite (prev_is_last _ _ _ _ _ HCs Hp) in *.
+      apply iqt_head_pair_fails.
+      * repeat split; auto.
+      * intros [_ [_ [_ [_ [_ R]]]]]. simpl in R. congruence.
+      * apply pair_origin in P. tauto.
+      * simpl. apply pair_origin in P. tauto.
+    + apply in_sorted_iff in Hn. rewrite ES in Hn.
+      destruct (next_is_head _ _ _ _ _ HCs Hn) as [r2 E2]. subst l2.
+      simpl in C. destruct C as [SN [PN _]].
+      assert (ON := pair_origin _ _ _ _ PN). simpl. rewrite SS.
+      assert (Step : rejected (match check_single (k + 1) nm with
+                               | Some c => Reject c
+                               | None => match check_pair k (with_cellSize d m) (k + 1) nm with
+                                         | Accept => iqt_loop (Some (k + 1, nm)) r2
+                                         | v => v
+                                         end
+                               end)).
+      { apply check_single_none in SN. rewrite SN.
+        destruct (check_pair k (with_cellSize d m) (k + 1) nm) eqn:EP.
+        - apply check_pair_accept in EP. destruct EP as [_ [_ [_ [_ [_ R]]]]]. simpl in R. congruence.
+        - eexists; reflexivity.
+        - exfalso. refine (check_pair_no_panic k (with_cellSize d m) (k + 1) nm _ _ EP); simpl; tauto. }
+      destruct (lastp None l1) as [[pk pm]|].
+      * destruct (check_pair pk pm k (with_cellSize d m)) eqn:EP.
+        -- exact Step.
+        -- eexists; reflexivity.
+        -- exfalso. apply pair_origin in P. refine (check_pair_no_panic pk pm k (with_cellSize d m) _ _ EP); simpl; tauto.
+      * exact Step.
+  - intros nm Hn Hk.
+    apply in_sorted_iff in HI. destruct (accepted_split _ _ _ HC0 HI) as [l1 [l2 [ES [H1 H2]]]].
+    assert (HCs : chain_ok None (l1 ++ (k, m) :: l2)) by (rewrite <- ES; exact HC0).
+    apply in_sorted_iff in Hn. rewrite ES in Hn.
+    destruct (next_is_head _ _ _ _ _ HCs Hn) as [r2 E2]. subst l2.
+    assert (Hl := chain_ok_app _ _ _ HCs). simpl in Hl. destruct Hl as [_ [P [SN [PN CN]]]].
+    assert (EQ : isQuadTree (delete_tm t k) = iqt_loop (lastp None l1) ((k + 1, nm) :: r2)).
+    { unfold isQuadTree. rewrite sorted_delete, ES, filter_split by assumption. eapply iqt_loop_prefix. exact HCs. }
+    destruct (lastp None l1) as [[pk pm]|] eqn:EL.
+    + apply validate_of_rejected_quad. rewrite EQ. destruct P as [EK _].
+      simpl. apply check_single_none in SN. rewrite SN. unfold check_pair.
+      destruct (Z.eqb_spec (k + 1) (pk + 1)); [lia|]. simpl. eexists; reflexivity.
+    + apply lastp_none in EL. subst l1. destruct Hk as [Hk|[pm Hp]].
+      * subst k. unfold validate. rewrite EQ.
+        assert (A : iqt_loop None ((0 + 1, nm) :: r2) = Accept).
+        { apply iqt_loop_accept. cbn [chain_ok]. split; [exact SN|split; [exact I|exact CN]]. }
+        simpl lastp. rewrite A.
+        unfold validate in HV. rewrite HA in HV. destruct (max_list ids) as [d|]; [|discriminate].
+        unfold deviationVerdict, matrixBoundingBox, delete_tm, set_matrices. simpl t_matrices.
+        rewrite find_tm_filter. eexists; reflexivity.
+      * exfalso. apply in_sorted_iff in Hp. rewrite ES in Hp. simpl in Hp. destruct Hp as [Hp|Hp].
+        -- inversion Hp; lia.
+        -- specialize (H2 _ _ Hp). lia.
+  - intros v vs. apply validate_of_rejected_quad. eapply reject_single; eauto.
+    intros [_ [_ [_ A]]]. simpl in A. discriminate.
+Qed.
+
+(** ** What acceptance by the composite validation adds *)
+Lemma validate_sound_lemma : forall t ids, validate t ids = Accept ->
+  isQuadTree t = Accept /\ ids <> [] /\ exists root, find_tm 0 (t_matrices t) = Some root.
+Proof.
+  intros t ids H. split; [eapply validate_accept_quad; eauto|].
+  unfold validate in H. destruct (isQuadTree t); try discriminate.
+  destruct ids as [|i r]; [simpl in H; discriminate|]. split; [discriminate|].
+  simpl in H. unfold deviationVerdict in H.
+  destruct (matrixBoundingBox t 0); try discriminate.
+  destruct (find_tm 0 (t_matrices t)) as [root|]; [eauto|discriminate].
 Qed.
